@@ -139,6 +139,17 @@ def discharge(F, site):
                             if f[0] == 'Lt' and strip(f[1]) == strip(x) and strip(f[2]) == ('int', 0):
                                 return 'D2', 'negative value plus a length cannot overflow'
                     # the mutated local is read right after the guard: x is an mlocal compared `< 0`
+            if op == 'Sub' and ty in ('usize', 'u64') and strip(bb) == ('int', 1) and strip(a)[0] == 'len':
+                # X.len() - 1 right after X.push(..): a block that dominates this one pushed onto the same vector and the function
+                # never shrinks it
+                cont = strip(a)[1]
+                shr = ('::pop', '::truncate', '::clear', '::remove', '::swap_remove', '::drain', '::split_off', '::retain', '::set_len')
+                pushes = [pb for pb, pt in fn.calls() if callee_name(pt) == 'alloc::vec::Vec::<T, A>::push' and psc.unref(sym(fn, pt['args'][0])) == cont
+                          and pb != b and fn.dominates(pb, b)]
+                shrinks = [pb for pb, pt in fn.calls() if callee_name(pt).startswith('alloc::vec::Vec') and callee_name(pt).endswith(shr)
+                           and pt['args'] and psc.unref(sym(fn, pt['args'][0])) == cont]
+                if pushes and not shrinks:
+                    return 'D2', 'len() - 1 after a push onto the same vector (which this function never shrinks)'
             if op == 'Sub' and ty in ('usize', 'u64', 'u16', 'u32'):
                 # a - b guarded by b <= a / a >= b / a > b-1
                 for f in facts:
